@@ -109,13 +109,31 @@ Fixpoint cur_exec (ov : option exec) (p : pipe) : exec :=
   | PShare q None => cur_exec ov q
   end.
 
-(* well-formedness hook for programs outside the modelled executor semantics (none at present: always true) *)
+(* A coroutine that suspends on an awaited future takes over that future's executor when it is resumed
+   (promise_type.hpp:128-131 Impl), so what a later Then(f) WITHOUT executor argument inherits depends on whether the
+   awaited future was ready.  That is executor semantics (C05 / C13), not allocation: programs in which a step inherits
+   from a coroutine that awaits something are outside this model; [wf] says so and the checker skips them (the
+   harness-side oracle still applies to them). *)
+Fixpoint exec_known (p : pipe) : bool :=
+  match p with
+  | PReady _ _ _ | PContract _ _ _ _ _ | PRun _ _ _ | PProm _ _ _ _ _ _ => true
+  | PCoro _ _ _ ps _ => match ps with PNil => true | PCons _ _ => false end
+  | PThen q (AOn _) _ => true
+  | PThen q _ _ | PDetach q _ _ => exec_known q
+  | PDetach0 q | PStartOn q _ | PToFuture q | POnNull q | PSplit q => exec_known q
+  | PShare q (Some _) => true
+  | PShare q None => exec_known q
+  end.
+
+Definition inherit_ok (a : attach) (q : pipe) : bool :=
+  match a with AInherit => exec_known q | _ => true end.
+
 Fixpoint wf (p : pipe) : bool :=
   match p with
   | PReady _ _ _ | PContract _ _ _ _ _ | PProm _ _ _ _ _ _ => true
   | PRun _ _ f => wf_fn f
   | PCoro _ _ _ ps _ => wf_pipes ps
-  | PThen q _ f | PDetach q _ f => wf q && wf_fn f
+  | PThen q a f | PDetach q a f => wf q && wf_fn f && inherit_ok a q
   | PStartOn q _ | PDetach0 q | PToFuture q | POnNull q | PSplit q | PShare q _ => wf q
   end
 with wf_fn (f : fn) : bool :=
